@@ -105,7 +105,12 @@ class World:
         prefix = 'Provides' if prt.direction == 'provides' else 'Requires'
         if client is not None:
             name = f'{prefix}MultiClient{cap(prt.name)}'
-            res = self.call_method(name, [M.Loc(client, 'client-id')])
+            # the identifier lives in the caller's frame, which is gone once the accessor returned
+            self.m.push_frame('Vf', None, f'caller:accessor:{client}')
+            try:
+                res = self.call_method(name, [self.m.new_local(client, 'client-id')])
+            finally:
+                self.m.pop_frame()
         else:
             name = f'{prefix}{cap(prt.name)}'
             res = self.call_method(name, [])
